@@ -73,6 +73,20 @@ CHECKS = {
             rapid("levels", "^TestC05Levels$", 300000, 16, timeout=3000),
         ],
     },
+    "C06": {
+        "quick": [
+            plain("regress", "^(TestRegressC06|TestC06Completeness)$"),
+            plain("sweep", "^TestC06Sweep$"),
+            rapid("terminal", "^TestC06Terminal$", 5000, 3),
+            rapid("child", "^TestC06Child$", 60, 2),
+        ],
+        "thorough": [
+            plain("regress", "^(TestRegressC06|TestC06Completeness)$"),
+            plain("sweep", "^TestC06Sweep$"),
+            rapid("terminal", "^TestC06Terminal$", 60000, 12, timeout=3000),
+            rapid("child", "^TestC06Child$", 200, 12, timeout=3000),
+        ],
+    },
     "C07": {
         "quick": [
             plain("regress", "^TestRegressC07"),
@@ -139,6 +153,7 @@ CHECKS = {
 LEVELS = {"C10": "fault_enumeration"}
 
 RULES = {
+    "C06": "cases = configurations drawn from the product core {JSON over a 1 MiB/1 h BufferedWriteSyncer over a recording sink, tee with observer in either order, no-op, sampler that drops everything, level-increased} x threshold -1..7 x development on/off x hook {default, nil, WriteThenNoop, WriteThenGoexit, custom recording} x level {DPanic, Panic, Fatal} x every front end (Logger methods, Log, Check+Write, all Sugar variants, NewStdLogAt Print/Printf/Println/Output, RedirectStdLogAt, zapgrpc Fatal*, globals L/S; completeness checked by reflection); a deterministic sweep of 5130 configurations; child processes re-executing the test binary with the real default actions, a real file and a buffered sink. Non-trivial = entry disabled/no-op/sampled-out, nil or no-op hook, or enabled entry behind the buffer. Distinct = distinct configurations.",
     "C05": "cases = core-composition trees (depth <= 4, tees of 0-3 branches) of observer and JSON IO leaves under tee / increase-level / hooks / pass-all sampler / lazy-with / With wrappers, each enabler an arbitrary subset of all 256 level values (monotone, non-monotone, empty) or a shared AtomicLevel; then a rapid state-machine history: log at any of the 256 levels through Log, Check+Write, level methods, Sugar Log/Logw/Logf/Logln, zapgrpc, slog handler; SetLevel on a shared AtomicLevel to any value; derive children (With, Named, WithLazy, WithOptions(IncreaseLevel/Hooks)); read Enabled for all 256 values, Logger.Level, LevelOf, gRPC V, slog Enabled. Reference model written from the statement decides deliveries, hook calls and marshaling counts after every op. Non-trivial = tree depth >= 2 with a tee whose branches differ in enablement for the logged level or a hook behind a tee, or an AtomicLevel change between two logs. Distinct = distinct (tree shape with enabler kinds, number of derived loggers, class flags).",
     "C08": "cases = metamorphic: a probe call P (generated EncoderConfig, JSON or console, With context, field tree with failing members, any level incl. Panic/Fatal with returning hooks, caller+stack on/off, call depth 0/3/70) issued from one source line before and after a generated history H (1-14 ops on OTHER loggers: logs of very different sizes, namespaces left open, reflected values, error arrays, deep stack captures, terminal levels with returning hooks, encoder clones, double GC, pool poisoning with a sentinel through internal/bufferpool), after GC, after H again; concurrent variant with 2-6 goroutines running histories while P is observed. Oracle = byte-identical output and identical side effects (sink writes, terminal hook and entry hook counts); sentinel never visible. Non-trivial = H uses at least one pool and contains a buffer > 1KiB. Distinct = distinct (probe shape, multiset of history op kinds, probe field kinds).",
     "C07": "cases = rapid state machine over a growing tree of loggers: derive from a random node by With / WithLazy / Named / WithOptions(Fields) / Sugar / Desugar (sugared equivalents included), fields incl. namespaces, Spec values and objects backed by a marshaler the machine mutates between steps; log through random nodes; GC; finally log through every node in a drawn order; over 10 core compositions (JSON, console, observer, tees, sampler, hooked, level-increased, lazy, all combined). Model = per-node ordered path fields with explicit evaluation time (With: at derivation; WithLazy: at first use of the node or of any descendant core). Non-trivial = a log through a node whose parent has context and >= 2 children after >= 3 derivations, or a lazy node pending while its marshaler was mutated. Distinct = distinct (core kind, derivation tree shape).",
@@ -161,6 +176,11 @@ ASSUMPTIONS = {
 TRUST = "Trusted base: Go toolchain/runtime, rapid's generators and shrinker, the reference model/oracle code in /verif/harness/props, and the standard-library packages used as reference implementations. Search-based: absence of a counterexample in the generated cases is not a proof."
 
 META = {
+    "C06": {
+        "technique": "property-based testing over the configuration product (rapid) with exit stub / recover / Goexit detection in-process, plus generated child-process runs observing the real exit status and file contents",
+        "level_text": "For each generated configuration the expected terminal action (exit 1, panic carrying the message, Goexit, exactly one custom hook call, or none for DPanic outside development) must happen through every front end even when the level is disabled, the core is a no-op, the entry is sampled out or a nil/no-op hook was configured; at the instant the action runs the sink below the 1 MiB buffer must already hold the complete line and have been synced, and every accepting tee branch must have the entry. The quantifier's crash_points part is decided by re-executing the test binary as a child with the real os.Exit/panic and reading the log file afterwards.",
+        "level_note": TRUST + " internal/exit.Stub observes os.Exit in-process (the stub returns, so ordering after the exit call is only observable in the child-process runs).",
+    },
     "C05": {
         "technique": "model-based stateful property testing (rapid t.Repeat): generated core compositions with arbitrary level subsets vs an explicit delivery/hook/enablement reference model",
         "level_text": "After every generated operation each leaf must have received exactly the modelled entries (count, level, message), each hook must have fired exactly once per entry its wrapped core accepted and never otherwise, the call-site marshaler must have run once per JSON destination and never for a disabled entry, NewIncreaseLevelCore/IncreaseLevel must fail exactly when they would widen, Enabled(l) must equal the model for all 256 values and Level/LevelOf/V must report the least enabled level. AtomicLevel changes are interleaved with log calls through loggers derived before and after the change. Exploration over unbounded compositions and histories.",
